@@ -33,7 +33,7 @@ EXTRA = {
     "fp": dict(decl="fp: fn(i64) -> i64", arg="fpid", ptr="fn(i64) -> i64"),
     "cl": dict(decl="cl: impl Fn(i64) -> i64 + ::core::marker::Send", arg="fpid", ptr="fn(i64) -> i64"),
     "bx": dict(decl="bx: ::std::boxed::Box<dyn Bound + ::core::marker::Send>", arg="::std::boxed::Box::new(3i64)", ptr="::std::boxed::Box<dyn Bound + ::core::marker::Send>"),
-    "mu": dict(decl="m: &mut i64", arg="&mut 5i64", ptr="&'b mut i64", ref=True),
+    "mu": dict(decl="m: &mut i64", arg="&mut mm", ptr="&'b mut i64", ref=True),
     "sl": dict(decl="sl: &[u8]", arg="&[1u8, 2]", ptr="&'b [u8]", ref=True),
     "tu": dict(decl="tu: (i64, &str)", arg="(1, \"s\")", ptr="(i64, &'b str)", ref=True),
     # a where-predicate that names 'static / a for<>-bound lifetime BEFORE a lifetime of the fn
@@ -193,7 +193,7 @@ def render(s):
 
     # (deny(unused_unsafe): if the fn or the method silently stopped being `unsafe`, the unsafe blocks below are rejected)
     L.append("    #[deny(unused_unsafe)] pub fn client() {")
-    L.append("        let x = X(2);")
+    L.append("        let x = X(2); let mut mm = 5i64;")
     for name, path, is_trait in (("d", fpath, False), ("t", "Tr::f", True)):
         recv_ref = mkapp if byval else "&app"
         if RETS[s["ret"]].get("needs") == "rn":
